@@ -17,6 +17,16 @@ CLAIMED = {
         note="Trusted: clang front end, AST export, atomic rename (POSIX); nothing else touches the dump files."),
 }
 
+CLAIMED["C12"] = dict(
+    level="other", design="3/C12",
+    technique="static analysis: definite-assignment (typestate) of owned/optional pointer members over every "
+              "constructor CFG of every class, new[]/delete[] form agreement, dominating-null-test rule for optional driver components",
+    text="Decides the ownership discipline whose breach is the reported crash-at-exit, for every class of the library: "
+         "each pointer member that a destructor deletes or that the class compares with nullptr is definitely assigned by "
+         "every user-provided non-delegating constructor (restart constructors included), and allocation/deallocation forms agree. "
+         "Does not decide run-time index bounds or exit status.",
+    note="Trusted: clang front end and AST export. A member handed out by address/reference is assumed initialised by the callee.")
+
 NOT_APPLICABLE = {
     "C13": "Equality with the RANLUX sequence, range [0,1) and byte-identical snapshots are facts about computed 48-bit arithmetic and library I/O; no sound static domain or on-disk reference to validate against. Its one structural clause (generator state fully dumped/restored) is decided under C09.",
     "C15": "Validity of a Voronoi tessellation and agreement of two constructions quantify over real generator sets; correctness rests on geometric predicates and flip sequences whose outcomes are runtime values; no clause has its truth in the shape of the code.",
